@@ -81,6 +81,17 @@ func schedEndNote(detail string) string {
 	return ""
 }
 
+// schedHypNote extracts one of the hypothesis flags (`topo`, `ff`, `benign`) of an accepted history:
+// "ok", "no" or "" (absent).
+func schedHypNote(detail, name string) string {
+	for _, f := range strings.Fields(detail) {
+		if strings.HasPrefix(f, name+"=") {
+			return f[len(name)+1:]
+		}
+	}
+	return ""
+}
+
 // SCHED: replay every committed sample history (corpus/sched/*.trace).
 func runSchedCorpus(c *Ctx) {
 	dir := filepath.Join(filepath.Dir(c.Corpus), "sched")
